@@ -264,6 +264,33 @@ Theorem include_validate_terminates : forall g root, exists bad, validate g root
 Proof. exact validate_total. Qed.
 Print Assumptions include_validate_terminates.
 
+(* The statements validate reports cut every cycle: generate_recurse, which skips
+   exactly those statements, terminates on every include graph (some fuel
+   suffices).  So no include graph makes the front end loop. *)
+Theorem include_assembly_terminates : forall g root bad,
+  validate g root = Some bad -> exists fuel r, generate fuel g bad root = Some r.
+Proof. exact generate_after_validate. Qed.
+Print Assumptions include_assembly_terminates.
+
+(* Cyclic includes are reported: if the full textual expansion from the root never
+   ends (the include graph has a cycle reachable from the root), validate returns
+   at least one error. *)
+Theorem include_cycle_is_reported : forall g root bad,
+  (forall fuel, generate fuel g [] root = None) -> validate g root = Some bad -> bad <> [].
+Proof. exact cycle_is_reported. Qed.
+Print Assumptions include_cycle_is_reported.
+
+(* the hypothesis is satisfiable: a -> b -> a never finishes expanding *)
+Example two_cycle_never_expands :
+  forall fuel, generate fuel [(0, [1]); (1, [0])]%N [] 0%N = None
+               /\ generate fuel [(0, [1]); (1, [0])]%N [] 1%N = None.
+Proof.
+  induction fuel as [|f [IH0 IH1]]; [split; reflexivity|].
+  split; cbn [generate edges_of nbeq N.eqb Pos.eqb gen_children skipped existsb].
+  - rewrite IH1. reflexivity.
+  - rewrite IH0. reflexivity.
+Qed.
+
 (* a -> b -> a: the cycle is reported, the offending statement is skipped and the
    tree is assembled without recursing for ever *)
 Example include_cycle_reported :
